@@ -85,10 +85,13 @@ func C18_Ops[T signal.SignalTypes]() {
 	default:
 		vf.Cover("pool-cycle")
 		p := signal.PoolAlloc[T](signal.Allocator{Channels: C, Length: e - s, Capacity: K})
-		p.Put(p.Get()) // warm the pool: steady state starts here
+		q := p         // a copy of the allocator value taken before its first use shares the pool
+		p.Put(q.Get()) // warm the pool: steady state starts here
 		n = vf.Allocs(func() {
 			b := p.Get()
 			b.AppendSample(x)
+			q.Put(b)
+			b = q.Get()
 			p.Put(b)
 		})
 	}
